@@ -10,7 +10,7 @@ E2: every exported model class with a node mode is solved in node mode and, in e
     attribute ignored, constraints / starts / ends expanded by the model): solved status and objective
     must agree, routes must be valid routes of the ORIGINAL graph in original names, weights/slacks
     lists must have one entry per route."""
-import copy, json, math
+import copy, json, math, os, time
 from fractions import Fraction as F
 import networkx as nx
 import common, gen, gen2, props
@@ -35,7 +35,8 @@ ASSUMPTIONS = [
 ]
 TRUSTED = ["model: coq/theories/NodeExp.v; proofs NodeExpProofs.v; driver coq/driver/h_nodeexp.ml (character-code wire format)"]
 
-SO = {"threads": 1}
+TIME_LIMIT = 40.0
+SO = {"threads": 1, "time_limit": TIME_LIMIT}   # the limit is only a guard against a pathological MILP; such a case is skipped, never judged
 
 # ----------------------------------------------------------------------------- wire format
 def w_str(s):
@@ -425,10 +426,364 @@ def direct_property(kind, impl, prop, info):
     return None
 
 
+
+# ----------------------------------------------------------------------------- E2
+CLASSES = {
+    # name: (graph kind, has k, constraint kwarg, supports additional starts/ends, family, routes key)
+    "kFlowDecomp":           ("dag", True,  "subpath_constraints", False, "fd",    "paths"),
+    "MinFlowDecomp":         ("dag", False, "subpath_constraints", "fill", "fd",   "paths"),
+    "kFlowDecompCycles":     ("cyc", True,  "subset_constraints",  True,  "fd",    "walks"),
+    "MinFlowDecompCycles":   ("cyc", False, "subset_constraints",  True,  "fd",    "walks"),
+    "kLeastAbsErrors":       ("dag", True,  "subpath_constraints", True,  "err",   "paths"),
+    "kLeastAbsErrorsCycles": ("cyc", True,  "subset_constraints",  True,  "err",   "walks"),
+    "kMinPathError":         ("dag", True,  "subpath_constraints", True,  "err",   "paths"),
+    "kMinPathErrorCycles":   ("cyc", True,  "subset_constraints",  True,  "err",   "walks"),
+    "kPathCover":            ("dag", True,  "subpath_constraints", True,  "cover", "paths"),
+    "kPathCoverCycles":      ("cyc", True,  "subset_constraints",  True,  "cover", "walks"),
+    "MinPathCover":          ("dag", False, "subpath_constraints", True,  "cover", "paths"),
+    "MinPathCoverCycles":    ("cyc", False, "subset_constraints",  True,  "cover", "walks"),
+    "MinErrorFlow":          ("any", False, None,                  True,  "mef",   None),
+}
+REMOVE_EMPTY = {"kFlowDecomp": "remove_empty_paths", "kLeastAbsErrors": "remove_empty_paths", "kMinPathError": "remove_empty_paths",
+                "kFlowDecompCycles": "remove_empty_walks", "kLeastAbsErrorsCycles": "remove_empty_walks", "kMinPathErrorCycles": "remove_empty_walks"}
+KEY_REMOVE_EMPTY = "remove_empty_drops_single_node"
+KEY_MFDC_STARTS = "MinFlowDecompCycles:node:additional_starts_ends:ValueError"
+
+
+def node_instance(rng, cls):
+    """tiny node-weighted instance for class `cls`: graph, generating routes, kwargs"""
+    kind, has_k, cons_kw, se, fam, rkey = CLASSES[cls]
+    cyc = (kind == "cyc") or (kind == "any" and rng.random() < 0.4)
+    r = rng.random()
+    if r < 0.12:
+        B = nx.DiGraph(); B.add_node("v0")            # single-node graph
+        if cyc and rng.random() < 0.5: B.add_edge("v0", "v0")
+    elif cyc:
+        B = gen.rand_cyclic(rng, nmax=rng.choice([2, 3]))
+    else:
+        B = gen.rand_dag(rng, nmax=rng.choice([3, 4, 5]))
+    B = nx.DiGraph(B)
+    if rng.random() < 0.3:
+        B.add_node("iso")                              # a node that is source and sink at once
+    srcs = [v for v in B if B.in_degree(v) == 0]; snks = [v for v in B if B.out_degree(v) == 0]
+    routes = []
+    if srcs and snks:
+        for _ in range(rng.randint(1, 2 if cyc else 3)):
+            w = gen.rand_walk(rng, B, maxlen=5) if cyc else None
+            if not cyc:
+                ps = gen.all_st_paths(B)
+                w = rng.choice(ps) if ps else None
+            if w: routes.append(w)
+    if "iso" in B and (rng.random() < 0.7 or not routes):
+        routes.append(["iso"])
+    starts = []; ends = []
+    if se and routes and rng.random() < 0.3:
+        base = rng.choice(routes)
+        if len(base) >= 2:
+            i = rng.randrange(1, len(base))
+            if rng.random() < 0.5:
+                starts = [base[i]]; routes.append(base[i:])
+            else:
+                ends = [base[i - 1]]; routes.append(base[:i])
+    if not routes:                                      # e.g. a lone self-loop: no source / sink
+        starts = [next(iter(B))]; ends = [next(iter(B))]
+        routes = [[next(iter(B))]]
+        if not se:
+            return None
+    ws = [rng.choice([1, 1, 2, 3] if cyc else gen2.WEIGHTS_INT) for _ in routes]
+    flow = {v: 0 for v in B}
+    for rt, w in zip(routes, ws):
+        for v in rt: flow[v] += w
+    order = list(B.nodes); rng.shuffle(order)
+    G = nx.DiGraph()
+    pmiss = rng.choice([0.0, 0.0, 0.15, 0.3])
+    for v in order:
+        d = {}
+        if fam != "cover" and rng.random() >= pmiss:
+            f = flow[v]
+            if fam in ("err", "mef") and rng.random() < 0.35:
+                f = max(0, f + rng.choice([-2, -1, 1, 2, 3]))
+            d["flow"] = f
+        G.add_node(v, **d)
+    es = list(B.edges); rng.shuffle(es)
+    for u, v in es:
+        d = {}
+        if rng.random() < 0.15: d["flow"] = rng.randint(0, 9)     # junk on an original edge: must be ignored
+        G.add_edge(u, v, **d)
+    kw = {}
+    if has_k:
+        kw["k"] = max(1, len(routes) + rng.choice([0, 0, 0, 1, -1]))
+        if cyc: kw["k"] = min(kw["k"], 3)              # the cyclic MILPs grow quickly with k; structure, not size, is the point
+    cons = []
+    if cons_kw and rng.random() < 0.4:
+        rt = rng.choice(routes)
+        if rng.random() < 0.5 or len(rt) < 2:
+            n = rng.randint(1, min(3, len(rt))); a = rng.randrange(0, len(rt) - n + 1)
+            cons = [rt[a:a + n]]
+        else:
+            es_ = list(zip(rt, rt[1:])); n = rng.randint(1, min(2, len(es_))); a = rng.randrange(0, len(es_) - n + 1)
+            cons = [es_[a:a + n]]
+        kw[cons_kw] = cons
+    ign = [v for v in G if rng.random() < 0.12]
+    if fam != "cover" and not any("flow" in d and v not in ign for v, d in G.nodes(data=True)):
+        # the property (and the classes) need at least one weighted element that is not ignored
+        v = rng.choice(list(G.nodes)); G.nodes[v]["flow"] = max(1, flow[v]); ign = [x for x in ign if x != v]
+    if ign: kw["elements_to_ignore"] = ign
+    if starts: kw["additional_starts"] = starts
+    if ends: kw["additional_ends"] = ends
+    if fam in ("fd", "err"):
+        kw["weight_type"] = rng.choice([int, float])
+    return {"G": G, "cyc": cyc, "routes": routes, "weights": ws, "kw": kw, "cons": cons, "ign": ign, "starts": starts, "ends": ends}
+
+
+def solve_obs(cls, G, kw, node_mode, want_remove_empty=False):
+    """construct + solve; returns a dict of observations (no exception escapes)"""
+    import flowpaths as fp
+    kind, has_k, cons_kw, se, fam, rkey = CLASSES[cls]
+    C = getattr(fp, cls)
+    args = dict(kw); args["solver_options"] = dict(SO)
+    if fam == "cover":
+        args["cover_type"] = "node" if node_mode else "edge"
+    else:
+        args["flow_attr"] = "flow"; args["flow_attr_origin"] = "node" if node_mode else "edge"
+    obs = {"exc": None, "solved": None}
+    t0 = time.time()
+    try:
+        m = C(copy.deepcopy(G), **args)
+        m.solve()
+        obs["solved"] = bool(m.is_solved())
+        obs["timeout"] = (not obs["solved"]) and (time.time() - t0 >= 0.5 * TIME_LIMIT)
+        if obs["solved"]:
+            sol = m.get_solution()
+            if fam == "mef":
+                obs["objective"] = float(sol["objective_value"]); obs["error"] = float(sol["error"]); obs["graph"] = sol["graph"]
+            else:
+                obs["routes"] = [list(r) for r in sol[rkey]]
+                obs["n"] = len(obs["routes"])
+                for key in ("weights", "slacks"):
+                    if key in sol: obs[key] = list(sol[key])
+                try:
+                    obs["objective"] = float(m.get_objective_value())
+                except Exception as e:
+                    obs["objective_exc"] = type(e).__name__
+                if want_remove_empty:
+                    s0 = m.get_solution(**{REMOVE_EMPTY[cls]: False})
+                    obs["full_routes"] = [list(r) for r in s0[rkey]]; obs["full_weights"] = list(s0["weights"])
+                    s2 = m.get_solution(**{REMOVE_EMPTY[cls]: True})
+                    obs["re_routes"] = [list(r) for r in s2[rkey]]; obs["re_weights"] = list(s2["weights"])
+                    if "slacks" in s2: obs["re_slacks"] = list(s2["slacks"])
+        obs["model"] = m
+    except Exception as e:
+        obs["exc"] = type(e).__name__ + ": " + str(e)[:120]
+    return obs
+
+
+def mfdc_explicit(H, ekw, xstarts, xends):
+    """MinFlowDecompCycles rejects additional starts/ends in edge mode; the explicit instance is solved by the
+    same minimum search over kFlowDecompCycles on the expansion"""
+    kw = dict(ekw); kw["additional_starts"] = list(xstarts); kw["additional_ends"] = list(xends)
+    last = None
+    for k in range(1, H.number_of_edges() + 2):
+        kw["k"] = k
+        last = solve_obs("kFlowDecompCycles", H, kw, False)
+        if last["exc"] or last["solved"]:
+            break
+    if last and last.get("solved"):
+        last.pop("objective", None)
+    return last
+
+
+def build_explicit(xn, xe):
+    H = nx.DiGraph()
+    for v, a in xn:
+        H.add_node(v, **dict(a))
+    for (u, v), a in xe:
+        H.add_edge(u, v, **dict(a))
+    return H
+
+
+def e2_cases(ctx, per_class):
+    reqs = []; cases = []
+    for cls in CLASSES:
+        kind, has_k, cons_kw, se, fam, rkey = CLASSES[cls]
+        for i in range(per_class):
+            rng = ctx.rng("e2:" + cls, i)
+            inst = node_instance(rng, cls)
+            if inst is None:
+                continue
+            G = inst["G"]
+            Gm = G
+            if fam == "cover":                         # the cover classes give every node a dummy value before expanding
+                Gm = copy.deepcopy(G)
+                for v in Gm: Gm.nodes[v]["cov"] = 0
+            flow = "cov" if fam == "cover" else "flow"
+            fill = (se == "fill") and bool(inst["starts"] or inst["ends"])
+            wg = w_graph(Gm)
+            base = len(reqs)
+            reqs.append("ne_construct " + common.toks(wg, w_str(flow), w_ostr(None), w_strs(inst["starts"] if fill else []),
+                                                       w_strs(inst["ends"] if fill else []), fill, w_str("SRC"), w_str("SNK")))
+            reqs.append("ne_cons " + common.toks(wg, len(inst["cons"]), [[len(c)] + [w_elem(e) for e in c] for c in inst["cons"]]))
+            reqs.append("ne_starts " + common.toks(wg, w_strs(inst["starts"])))
+            reqs.append("ne_ends " + common.toks(wg, w_strs(inst["ends"])))
+            cases.append((cls, i, inst, base))
+    outs = ctx.model.run(reqs)
+    # the user-ignored nodes are appended to the constructor's list by the model as well (second batch)
+    reqs2 = []
+    parsed = []
+    for cls, i, inst, base in cases:
+        rd = Rd(outs[base])
+        if not rd.ok:
+            parsed.append(None); reqs2.append("ne_exppath 0"); continue
+        xn = rd.list(lambda: [rd.str(), rd.attrs()]); xe = rd.list(lambda: [rd.edge(), rd.attrs()]); ign = rd.list(rd.edge)
+        rc = Rd(outs[base + 1]); rs = Rd(outs[base + 2]); re_ = Rd(outs[base + 3])
+        if not (rc.ok and rs.ok and re_.ok):
+            parsed.append(None); reqs2.append("ne_exppath 0"); continue
+        parsed.append((xn, xe, ign, rc.list(lambda: rc.list(rc.edge)), rs.list(rs.str), re_.list(re_.str)))
+        Gm = inst["G"]
+        reqs2.append("ne_ignore " + common.toks(w_graph(Gm), w_edges(ign), len(inst["ign"]), [w_elem(e) for e in inst["ign"]]))
+    outs2 = ctx.model.run(reqs2)
+    for (cls, i, inst, base), pr, o2 in zip(cases, parsed, outs2):
+        kind, has_k, cons_kw, se, fam, rkey = CLASSES[cls]
+        G = inst["G"]; kw = inst["kw"]
+        eng = "E2_" + cls
+        info = {"class": cls, "case": i, "nodes": [[v, items(d)] for v, d in G.nodes(data=True)], "edges": [[u, v, items(d)] for u, v, d in G.edges(data=True)],
+                "kwargs": {k: (v.__name__ if isinstance(v, type) else v) for k, v in kw.items()}, "gen_routes": inst["routes"], "gen_weights": inst["weights"]}
+        if pr is None:
+            ctx.report(f"model could not expand a valid instance for {cls}", info, concrete=False); continue
+        xn, xe, ign0, xcons, xstarts, xends = pr
+        r2 = Rd(o2)
+        if not r2.ok:
+            ctx.report(f"model could not expand the ignore list for {cls}", info, concrete=False); continue
+        ign = r2.list(r2.edge)
+        fill = (se == "fill") and bool(inst["starts"] or inst["ends"])
+        t_case = time.time()
+        nobs = solve_obs(cls, G, kw, True, want_remove_empty=cls in REMOVE_EMPTY)
+        # ---- explicit instance from the MODEL's expansion, edge mode
+        H = build_explicit(xn, xe)
+        ekw = {k: v for k, v in kw.items() if k not in (cons_kw, "elements_to_ignore", "additional_starts", "additional_ends")}
+        if cons_kw and inst["cons"]: ekw[cons_kw] = [list(c) for c in xcons]
+        ekw["elements_to_ignore"] = sorted(set(ign))
+        if fill:
+            # MinFlowDecomp(Cycles): the synthetic source/sink live inside the expansion, the missing values are filled by
+            # networkx' min-cost flow (external engine): take them from the implementation's internal graph
+            m = nobs.get("model")
+            if m is not None and hasattr(m, "G_internal"):
+                ren = {m.G_internal.global_source_id + ".0": "SRC.0", m.G_internal.global_source_id + ".1": "SRC.1",
+                       m.G_internal.global_sink_id + ".0": "SNK.0", m.G_internal.global_sink_id + ".1": "SNK.1"}
+                for u, v, d in m.G_internal.edges(data=True):
+                    uu, vv = ren.get(u, u), ren.get(v, v)
+                    if H.has_edge(uu, vv) and "flow" in d and "flow" not in H[uu][vv]:
+                        H[uu][vv]["flow"] = d["flow"]
+        else:
+            if inst["starts"]: ekw["additional_starts"] = list(xstarts)
+            if inst["ends"]: ekw["additional_ends"] = list(xends)
+        if cls == "MinFlowDecompCycles" and (inst["starts"] or inst["ends"]):
+            eobs = mfdc_explicit(H, ekw, xstarts if inst["starts"] else [], xends if inst["ends"] else [])
+            nobs.pop("objective", None)
+        else:
+            eobs = solve_obs(cls, H, ekw, False, want_remove_empty=cls in REMOVE_EMPTY)
+        info["explicit"] = {"nodes": [[v, items(dict(a))] for v, a in xn], "edges": [[u, v, items(dict(a))] for (u, v), a in xe],
+                            "kwargs": {k: (v.__name__ if isinstance(v, type) else v) for k, v in ekw.items()}}
+        summ = lambda o: {k: o.get(k) for k in ("exc", "solved", "n", "objective", "error", "routes", "weights", "slacks", "full_routes", "full_weights", "re_routes", "re_weights", "re_slacks") if k in o}
+        info["node_mode"] = summ(nobs); info["edge_mode_on_expansion"] = summ(eobs)
+        if os.environ.get("C11_TRACE"):
+            import sys; print("E2", cls, i, round(time.time() - t_case, 2), file=sys.stderr, flush=True)
+        ctx.count(eng, "cases")
+        nontriv = bool(nobs.get("solved")) and (G.number_of_nodes() > 1)
+        canon = [cls, info["nodes"], info["edges"], json.dumps(info["kwargs"], sort_keys=True, default=str)]
+        ctx.case(canon, nontrivial=nontriv, sample=info if i == 0 else None)
+        ctx.dist(f"e2:{cls}:{'solved' if nobs.get('solved') else ('exc' if nobs['exc'] else 'unsolved')}")
+        if nobs.get("timeout") or eobs.get("timeout"):
+            ctx.count(eng, "skipped_solver_time_limit"); continue
+        issues = e2_compare(cls, G, inst, nobs, eobs)
+        if issues == ["both_raise"]:
+            ctx.count(eng, "both_modes_raise_same_exception"); ctx.dist("e2:both_raise:" + nobs["exc"].split(":")[0])
+        elif issues:
+            allknown = all(key and ctx.open_finding(key) for _, key in issues)
+            ctx.count(eng, "agree_up_to_known_finding" if allknown else "failures")
+            for what, key in issues:
+                ctx.report(f"{cls} node mode vs explicit expansion: {what}", info, key=key, concrete=True)
+        else:
+            ctx.count(eng, "agreements")
+
+
+def close(a, b, tol=1e-6):
+    return abs(a - b) <= tol * max(1.0, abs(a), abs(b))
+
+
+def e2_compare(cls, G, inst, nobs, eobs):
+    issues = []
+    _e2_compare(cls, G, inst, nobs, eobs, issues)
+    return issues
+
+
+def _e2_compare(cls, G, inst, nobs, eobs, issues):
+    kind, has_k, cons_kw, se, fam, rkey = CLASSES[cls]
+    if nobs["exc"] or eobs["exc"]:
+        tn = (nobs["exc"] or "").split(":")[0]; te = (eobs["exc"] or "").split(":")[0]
+        if tn != te:
+            key = None
+            if cls == "MinFlowDecompCycles" and (inst["starts"] or inst["ends"]) and tn == "ValueError" and "try_filling_in_missing_flow_attr" in nobs["exc"]:
+                key = KEY_MFDC_STARTS
+            issues.append((f"node mode raised {nobs['exc']!r}, explicit expansion raised {eobs['exc']!r}", key)); return
+        issues.append("both_raise"); return
+    if nobs["solved"] != eobs["solved"]:
+        issues.append((f"solved status differs: node mode {nobs['solved']}, explicit expansion {eobs['solved']}", None)); return
+    if not nobs["solved"]:
+        return
+    if fam == "mef":
+        if not close(nobs["error"], eobs["error"]) or not close(nobs["objective"], eobs["objective"]):
+            issues.append((f"objective differs: node mode error {nobs['error']}, explicit {eobs['error']}", None)); return
+        Hn = nobs["graph"]
+        if list(Hn.nodes) != list(G.nodes) or list(Hn.edges) != list(G.edges):
+            issues.append(("corrected graph is not expressed on the caller's nodes/edges", None)); return
+        return
+    def lost_single(n_node, n_exp):
+        """the node-mode answer is short by exactly the single-node routes of its own unfiltered solution"""
+        singles = sum(1 for r in nobs.get("full_routes", []) if len(r) == 1)
+        return KEY_REMOVE_EMPTY if (singles > 0 and n_node + singles == n_exp) else None
+    for key in ("weights", "slacks"):
+        if key in nobs and len(nobs[key]) != nobs["n"]:
+            issues.append((f"{key} has {len(nobs[key])} entries for {nobs['n']} routes", None)); return
+    if nobs["n"] != eobs["n"]:
+        key = lost_single(nobs["n"], eobs["n"])
+        issues.append((f"number of routes of get_solution() differs: node mode {nobs['n']}, explicit expansion {eobs['n']}", key))
+        if key is None:
+            return
+    if ("objective" in nobs) != ("objective" in eobs) or ("objective" in nobs and not close(nobs["objective"], eobs["objective"])):
+        issues.append((f"objective differs: node mode {nobs.get('objective')}, explicit expansion {eobs.get('objective')}", None)); return
+    for rs in ("routes", "full_routes", "re_routes"):
+        for r in nobs.get(rs, []):
+            if rs == "full_routes" and not r:
+                continue                                 # unused layer of the unfiltered solution
+            why = props.valid_route(G, r, starts=inst["starts"], ends=inst["ends"], simple=(kind == "dag"))
+            if why:
+                issues.append((f"route {r} is not a route of the caller's graph in the caller's names: {why}", None)); return
+    if fam == "fd":
+        ign = set(inst["ign"])
+        R, W = (nobs["full_routes"], nobs["full_weights"]) if "full_routes" in nobs else (nobs["routes"], nobs["weights"])
+        for v, d in G.nodes(data=True):
+            if "flow" in d and v not in ign:
+                got = sum(w * r.count(v) for r, w in zip(R, W))
+                if not close(float(got), float(d["flow"])):
+                    issues.append((f"node {v!r}: routes explain {got}, value is {d['flow']}", None)); return
+    if "re_routes" in nobs:
+        if len(nobs["full_routes"]) != len(eobs["full_routes"]):
+            issues.append((f"unfiltered solution has {len(nobs['full_routes'])} routes in node mode, {len(eobs['full_routes'])} on the explicit expansion", None)); return
+        for key in ("re_weights", "re_slacks"):
+            if key in nobs and len(nobs[key]) != len(nobs["re_routes"]):
+                issues.append((f"{key} has {len(nobs[key])} entries for {len(nobs['re_routes'])} routes", None)); return
+        if len(nobs["re_routes"]) != len(eobs["re_routes"]):
+            issues.append((f"get_solution({REMOVE_EMPTY[cls]}=True) keeps {len(nobs['re_routes'])} routes in node mode but {len(eobs['re_routes'])} on the "
+                           f"explicit expansion", lost_single(len(nobs["re_routes"]), len(eobs["re_routes"]))))
+    return
+
+
 def run(ctx):
     ctx.rule = ("E3 case = one call of the constructor / get_expanded_* / get_condensed_paths / get_condensed_graph / ignore glue on a random "
                 "node-weighted DAG or cyclic digraph (1-8 nodes; nodes without the attribute, isolated and single nodes, length attribute, "
                 "additional starts/ends; adversarial stream: names with dots, ending in .0/.1, empty name); non-trivial = the call succeeds; "
                 "E2 case = one model class solved in node mode and on the model's explicit expansion; distinct by request text")
-    e3_cases(ctx, ctx.budget(260, 6000), "plain", False)
-    e3_cases(ctx, ctx.budget(140, 3000), "adversarial", True)
+    e3_cases(ctx, ctx.budget(400, 6000), "plain", False)
+    e3_cases(ctx, ctx.budget(250, 3000), "adversarial", True)
+    e2_cases(ctx, ctx.budget(int(os.environ.get("C11_E2_PER_CLASS", "30")), 150))
